@@ -14,36 +14,35 @@ _TABLES = {}
 ONE = 1.0 - 2.0 ** -24       # largest float32 below 1
 
 
-def _table(n):
-    """first n points (index 0 skipped) of the fixed-seed scrambled Sobol sequence in _D dims, float64"""
+def _table(n, block=0):
+    """first n points (index 0 skipped) of the fixed-seed scrambled Sobol sequence in _D dims, float64.
+    `block` selects an independently scrambled copy (fixed seed per block): coordinates beyond the first _D
+    come from further blocks, so no (index, coordinate) pair is ever reused and memory stays bounded."""
     size = 64
     while size < n + 1:
         size *= 2
-    if size not in _TABLES:
+    key = (size, block)
+    if key not in _TABLES:
         # Owen-scrambled with a FIXED seed: still a deterministic (t,m,s)-net (every elementary dyadic box of
         # volume 2^-m is hit equally often), but without the poor low-order projections between far-apart
         # coordinates of the unscrambled sequence (which showed up as artefacts in rejection loops)
         st = torch.get_rng_state()
-        eng = torch.quasirandom.SobolEngine(_D, scramble=True, seed=20260927)
-        _TABLES[size] = eng.draw(size + 1, dtype=torch.float64)[1:]
+        eng = torch.quasirandom.SobolEngine(_D, scramble=True, seed=20260927 + 7919 * block)
+        tab = eng.draw(size + 1, dtype=torch.float64)[1:]
         torch.set_rng_state(st)
-    t = _TABLES[size]
-    if len(t) < n:
-        return _table(2 * size)[:n]
-    return t[:n]
+        if len(_TABLES) > 96:                      # bounded cache (oldest entries first)
+            for k in list(_TABLES)[:32]:
+                del _TABLES[k]
+        _TABLES[key] = tab
+    return _TABLES[key][:n]
 
 
 def net(rows, col0, cols):
-    """rows x cols block: Sobol points 1..rows, coordinates col0..col0+cols-1 (wrapping)."""
+    """rows x cols block: Sobol points 1..rows, coordinates col0..col0+cols-1 (block = coordinate // _D)."""
     out = torch.empty(rows, cols, dtype=torch.float64)
     for j in range(cols):
-        c = col0 + j
-        wrap, dim = divmod(c, _D)
-        if wrap == 0:
-            out[:, j] = _table(rows)[:, dim]
-        else:
-            shift = wrap * 7919
-            out[:, j] = _table(rows + shift)[shift:shift + rows, dim]
+        block, dim = divmod(col0 + j, _D)
+        out[:, j] = _table(rows, block)[:, dim]
     return out
 
 
